@@ -117,6 +117,30 @@ theorem result_is_samples_or_error (expf : α → α) (nonFinite : α → Bool) 
     obtain ⟨_, _, _, _, _, _, _, _, _, _, _, h12, _⟩ := iterativeSample_facts hr
     exact Or.inr ⟨res, rfl, h12⟩
 
+/-- No early stop: a successful call returns **fewer** than `n_requested_samples` samples only from the exit where the
+growth policy's wish, clamped to what is left of the budget, is 0 — stated for every policy. -/
+theorem fewer_only_from_zero_growth (h : iterativeSample expf nonFinite llf lib c idx grow uus = .ok res)
+    (hshort : res.out.good.length < c.req) :
+    ∃ r, clamp (c.budget lib.length) res.evaluated
+      (grow r (goodPos expf res.out.allLls res.uuLast).length res.out.allLls.length
+        (c.req - (goodPos expf res.out.allLls res.uuLast).length)) = 0 :=
+  iterativeSample_short h hshort
+
+/-- … hence, for every policy that asks for at least one more prior sample whenever samples are still missing (the
+code's `int(safety_factor · n_need / n_good · n_evaluated)` with `safety_factor ≥ 1` does: `n_evaluated ≥ n_good ≥ 1`),
+fewer than requested are returned only when the **whole budget** has been evaluated. -/
+theorem fewer_only_when_budget_spent (h : iterativeSample expf nonFinite llf lib c idx grow uus = .ok res)
+    (hgrow : ∀ r g e n, 0 < n → 0 < grow r g e n) (hshort : res.out.good.length < c.req) :
+    res.evaluated = c.budget lib.length := by
+  obtain ⟨r, hr⟩ := iterativeSample_short h hshort
+  obtain ⟨_, _, _, h4, _, _, _, _, _, h10, _⟩ := iterativeSample_facts h
+  have hG : (goodPos expf res.out.allLls res.uuLast).length < c.req := by
+    rw [h10, List.length_take] at hshort; omega
+  have hpos := hgrow r (goodPos expf res.out.allLls res.uuLast).length res.out.allLls.length
+    (c.req - (goodPos expf res.out.allLls res.uuLast).length) (by omega)
+  unfold clamp at hr
+  split at hr <;> omega
+
 end Generic
 
 /-! ### non-vacuity: two growth rounds over ℤ (thresholds scaled by 10), 6-row library, request 2 -/
@@ -140,6 +164,12 @@ example : (match iterativeSample toyExp (fun _ => false) id toyLib ⟨2, some 50
       (fun _ _ _ _ => 3) [[9, 1, 9], [9, 1, 9, 2, 5, 5]] with
     | .ok res => (res.evaluated, res.out.full)
     | .error _ => (0, [])) = (6, [1, 5]) := by decide
+
+/-- a short result (request 3, only 2 of the 6 rows pass): the whole budget was evaluated, as `fewer_only_when_budget_spent` says -/
+example : (match iterativeSample toyExp (fun _ => false) id toyLib ⟨3, none, some 3, 128, 1, 128, false⟩ none
+      (fun _ _ _ _ => 3) [[9, 1, 9], [9, 1, 9, 2, 5, 5]] with
+    | .ok res => (res.evaluated, res.out.good, decide (res.out.good.length < 3))
+    | .error _ => (0, [], false)) = (6, [1, 5], true) := by decide
 
 end Examples
 end Iter
